@@ -207,7 +207,7 @@ func (boundary) Describe() core.EngineInfo {
 		Real:       []string{"goatlang NewFunc adapters, call/callReady, mkFunc, newMethod, VM.Call/Func/Set/Get, constructors and accessors, slices.SortFunc native"},
 		Stubs:      []string{"host natives are the simulator's (they are the seam)", "SimDisk serves the script"},
 		Assumes:    []string{"an untyped constant passed to a native arrives as goatlang's untyped number: payload compared, type not", "scalars, nil and slices of scalars only", "natives that break their own declared result count are host bugs and are not injected"},
-		ProbesWant: []string{"form_1", "form_2", "form_3", "form_4", "form_5", "form_6", "ctx_stmt", "ctx_stmtret", "ctx_swstmt", "ctx_litret", "hostcall_tryseq", "hostcall_ctors", "hostcall_shadow", "ctx_vardecl", "ctx_assign", "ctx_expr", "ctx_nested", "ctx_fnvar", "ctx_loop", "ctx_viafn", "ctx_method", "ctx_objmethod", "ctx_reenter", "ctx_recurse", "ctx_sort", "hostcall_swap", "hostcall_variadic", "hostcall_reuse", "hostcall_redefine", "hostcall_consts", "hostcall_structs", "big_literal_arg", "round_2", "fault_propagated", "fault_handled", "hostcall_ok", "hostcall_too_many", "spread"},
+		ProbesWant: []string{"form_1", "form_2", "form_3", "form_4", "form_5", "form_6", "ctx_stmt", "ctx_stmtret", "ctx_swstmt", "ctx_litret", "hostcall_tryseq", "hostcall_globalfn", "ctx_andor", "hostcall_ctors", "hostcall_shadow", "ctx_vardecl", "ctx_assign", "ctx_expr", "ctx_nested", "ctx_fnvar", "ctx_loop", "ctx_viafn", "ctx_method", "ctx_objmethod", "ctx_reenter", "ctx_recurse", "ctx_sort", "hostcall_swap", "hostcall_variadic", "hostcall_reuse", "hostcall_redefine", "hostcall_consts", "hostcall_structs", "big_literal_arg", "round_2", "fault_propagated", "fault_handled", "hostcall_ok", "hostcall_too_many", "spread"},
 	}
 }
 
@@ -294,12 +294,12 @@ func (e boundary) genPlan(r *core.PRNG) *BPlan {
 		ctx := core.Pick(r, ctxs)
 		ni := r.Intn(len(p.Natives))
 		n := p.Natives[ni]
-		if ctx == "nestedarg" || ctx == "expr" || ctx == "viafn" || ctx == "method" || ctx == "callback" || ctx == "objmethod" || ctx == "litret" {
+		if ctx == "nestedarg" || ctx == "andor" || ctx == "expr" || ctx == "viafn" || ctx == "method" || ctx == "callback" || ctx == "objmethod" || ctx == "litret" {
 			// needs at least one result
 			found := -1
 			for try := 0; try < 8; try++ {
 				c := r.Intn(len(p.Natives))
-				if p.Natives[c].Rets >= 1 && (ctx != "expr" || p.Natives[c].Numeric) && (ctx == "expr" || ctx == "viafn" || ctx == "litret" || p.Natives[c].Form >= 3) {
+				if p.Natives[c].Rets >= 1 && ((ctx != "expr" && ctx != "andor") || p.Natives[c].Numeric) && (ctx == "expr" || ctx == "andor" || ctx == "viafn" || ctx == "litret" || p.Natives[c].Form >= 3) {
 					found = c
 					break
 				}
@@ -335,7 +335,7 @@ func (e boundary) genPlan(r *core.PRNG) *BPlan {
 		switch ctx {
 		case "assign":
 			p.Sites[idx].Want = r.Intn(n.Rets + 1)
-		case "expr", "nestedarg", "viafn", "method", "callback", "objmethod":
+		case "expr", "andor", "nestedarg", "viafn", "method", "callback", "objmethod":
 			p.Sites[idx].Want = 1
 		case "vardecl":
 			// var a, b any = N(...): needs a native with at least two results
@@ -375,7 +375,7 @@ func (e boundary) genPlan(r *core.PRNG) *BPlan {
 	}
 	ns := 2 + r.Intn(10)
 	for i := 0; i < ns; i++ {
-		gen([]string{"stmt", "stmtret", "swstmt", "litret", "vardecl", "assign", "assign", "expr", "nested", "fnvar", "loop", "viafn", "method", "objmethod", "objmethod", "reenter", "recurse", "sort"}, 0)
+		gen([]string{"stmt", "stmtret", "swstmt", "litret", "vardecl", "andor", "assign", "assign", "expr", "nested", "fnvar", "loop", "viafn", "method", "objmethod", "objmethod", "reenter", "recurse", "sort"}, 0)
 	}
 	if r.Chance(1, 2) {
 		nf := 1 + r.Intn(2)
@@ -425,6 +425,9 @@ func (e boundary) genPlan(r *core.PRNG) *BPlan {
 		}
 		if r.Chance(1, 10) {
 			h = BHostCall{Fn: "shadow"}
+		}
+		if r.Chance(1, 10) {
+			h = BHostCall{Fn: "globalfn", B: 2 + r.Intn(3)}
 		}
 		np := h.A
 		if h.Fn == "redefine" {
@@ -549,6 +552,9 @@ func (p *BPlan) render() string {
 	}
 	// natives of the (value, err) shape: variables, a package variable and a struct field receive an
 	// error object at some calls and nil at others
+	// a package variable holding a native, called, re-assigned by the script, called again
+	ln("var gh = host.GA")
+	ln("func ghseq() { host.GObs(1, gh(1)); gh = host.GB; host.GObs(2, gh(2)); gh = host.GA; host.GObs(3, gh(3)) }")
 	ln("func shadowed() { println(7, \"x\"); print(\"y\"); println() }")
 	ln("var GE any")
 	ln("type EH struct { E any }")
@@ -634,6 +640,12 @@ func (p *BPlan) render() string {
 		case "stmtret":
 			ln("\tz%d := sr%d()", si, si)
 			ln("\thost.Obs(%d, z%d)", si, si)
+		case "andor":
+			// the native on the right of && / ||: in half of the sites the left operand decides and the
+			// native must not run; the statement after the expression runs either way
+			form := []string{"G < 0 && %s > 0 - 100000", "G >= 0 || %s > 0 - 100000", "G >= 0 && %s > 0 - 100000", "G < 0 || %s > 0 - 100000"}[si%4]
+			ln(pre+"sc%d := "+form, si, p.callExpr(si, "", ""))
+			ln("\thost.Obs(%d, sc%d)", si, si)
 		case "vardecl":
 			var rs []string
 			for i := 0; i < s.Want; i++ {
@@ -727,6 +739,8 @@ type bRun struct {
 	nativeVals map[int]goatlang.Value
 	handledNow bool // a nested error was handled during the current round
 	forms      map[string]bool
+	andorSeen  map[int]int // andor sites: how often the statement after the expression ran
+	gcalls     []string // globalfn: which native ran with which argument, and what the script got back
 	shadow     []string // calls received by the natives registered as main.println / main.print
 	tryMask    int // tryseq: bit i set = the i-th call of host.Try returns an error object
 	trySeen    int
@@ -859,6 +873,9 @@ func (run *bRun) expectArg(a BArg, site int) (BVal, bool) {
 
 func (run *bRun) checkArgs(site int, s BSite, nat BNative, args, vargs []goatlang.Value, variadic bool) {
 	var want []BVal
+	if s.Ctx == "andor" && site%4 < 2 {
+		run.fail("C19/args", "ran-despite-short-circuit", "site %d: the left operand of %s decides the result, but the native on the right was invoked", site, []string{"&&", "||"}[site%2])
+	}
 	for _, a := range s.Args {
 		w, ok := run.expectArg(a, site)
 		if !ok {
@@ -896,6 +913,16 @@ func (run *bRun) natives(vm *goatlang.VM) {
 			return BVal{K: "slice", Sl: bSpread}.value()
 		}
 		return bPool[i].value()
+	}))
+	for _, name := range []string{"A", "B"} {
+		name := name
+		vm.Set("host.G"+name, goatlang.NewFunc(1, 1, func(v *goatlang.VM, a []goatlang.Value) goatlang.Value {
+			run.gcalls = append(run.gcalls, fmt.Sprintf("%s%d", name, a[0].Int()))
+			return goatlang.Int(map[string]int{"A": 100, "B": 200}[name] + a[0].Int())
+		}))
+	}
+	vm.Set("host.GObs", goatlang.NewFunc(2, 0, func(v *goatlang.VM, a []goatlang.Value) {
+		run.gcalls = append(run.gcalls, fmt.Sprintf("obs%d=%d", a[0].Int(), a[1].Int()))
 	}))
 	for _, name := range []string{"println", "print"} {
 		name := name
@@ -1029,6 +1056,9 @@ func (run *bRun) obs(site int, got []goatlang.Value) {
 		}
 	case "stmtret", "swstmt":
 		want = []BVal{{K: "int32", I: 12345}}
+	case "andor":
+		run.andorSeen[site]++
+		want = []BVal{{K: "bool", I: int64([]int{0, 1, 1, 1}[site%4])}}
 	case "litret", "vardecl":
 		if s.Want <= len(rv) && s.Want > 0 {
 			want = rv[:s.Want]
@@ -1066,7 +1096,7 @@ func (boundary) Execute(plan any, keep bool) *core.Result {
 	src := p.render()
 	disk := core.NewSimDisk([]core.DiskFile{{Path: "main/main.go", Data: []byte(src)}}, hist)
 	disk.Mute = true
-	run := &bRun{p: p, res: res, lastAt: -1, inv: make([]int, len(p.Natives)), siteInv: map[int]int{}, lastRet: map[int][]BVal{}}
+	run := &bRun{p: p, res: res, lastAt: -1, inv: make([]int, len(p.Natives)), siteInv: map[int]int{}, lastRet: map[int][]BVal{}, andorSeen: map[int]int{}}
 	run.h = core.NewHost(p.Seed, disk, hist, run.natives)
 	run.h.Budget = core.MaxBudget
 	goatlang.VerifOptimizeOff = p.OptimizeOff
@@ -1100,6 +1130,16 @@ func (boundary) Execute(plan any, keep bool) *core.Result {
 		}
 		_, err := run.h.Call("main.work", 0)
 		out = run.judgeRound(err, firedBefore)
+		if err == nil && run.fired == nil && run.res.OK() {
+			// a round without any fault ran every statement of work(): the statement that follows each
+			// && / || expression has reported once more
+			for si, st := range p.Sites {
+				if st.Ctx == "andor" && !st.Skip && run.andorSeen[si] != round {
+					run.fail("C19/rets", "statement-after-short-circuit-skipped", "site %d: the statement after `sc := <left> %s N%d(...) > ...` ran %d times in %d rounds of work()", si, []string{"&&", "||", "&&", "||"}[si%4], st.Native, run.andorSeen[si], round)
+					break
+				}
+			}
+		}
 	}
 	for i := range p.HostCalls {
 		run.hostCall(&p.HostCalls[i])
@@ -1236,6 +1276,22 @@ func (run *bRun) hostCall(hc *BHostCall) {
 	}
 	if hc.Fn == "structs" {
 		run.hostStructs(hc)
+		return
+	}
+	if hc.Fn == "globalfn" {
+		run.h.C.Inc("hostcall_globalfn")
+		run.gcalls = nil
+		want := ""
+		for i := 0; i < hc.B; i++ {
+			if _, err := run.h.Call("main.ghseq", 0); err != nil {
+				run.fail("C19/count", "globalfn-failed", "Call(main.ghseq) failed: %v", firstLine(err.Error()))
+				return
+			}
+			want += "A1 obs1=101 B2 obs2=202 A3 obs3=103 "
+		}
+		if got := strings.Join(run.gcalls, " ") + " "; got != want {
+			run.fail("C19/args", "reassigned-global-function", "var gh = host.GA; ghseq calls gh(1), assigns gh = host.GB, calls gh(2), assigns gh = host.GA, calls gh(3), %d times over: the natives saw and the script got [%s], want [%s]", hc.B, strings.TrimSpace(got), strings.TrimSpace(want))
+		}
 		return
 	}
 	if hc.Fn == "ctors" {
